@@ -9,6 +9,7 @@ import (
 	"net"
 	"sync"
 	"testing"
+	"time"
 
 	"go.nanomsg.org/mangos/v3"
 
@@ -35,6 +36,7 @@ type spec struct {
 	Devs   [][2]int `json:"devs,omitempty"`   // hsdev: (position, value) single-byte deviations of the peer header
 	Claims []int    `json:"claims,omitempty"` // hsdev: well-formed headers naming these protocol numbers
 	Trunc  []int    `json:"trunc,omitempty"`  // hsdev: correct header cut to this many bytes, then end of stream
+	Full   bool     `json:"full,omitempty"`   // ws listen: the whole list of foreign subprotocol offers
 }
 
 func TestMain(m *testing.M) { hx.Main(m) }
@@ -78,7 +80,7 @@ func TestC15(t *testing.T) {
 	var cases []mon.CaseSpec
 
 	// framing, both directions, every protocol number x stream transport x role
-	frameRounds := r.Pick(16, 200)
+	frameRounds := r.Pick(48, 600)
 	for round := 0; round < frameRounds; round++ {
 		for _, tr := range streamTrs {
 			for _, role := range roles {
@@ -126,7 +128,7 @@ func TestC15(t *testing.T) {
 							seen[v] = true
 							devs = append(devs, [2]int{pos, v})
 						}
-						for n := 0; n < 13; {
+						for n := 0; n < 29; {
 							if v := rnd.Intn(256); !seen[v] {
 								seen[v] = true
 								devs = append(devs, [2]int{pos, v})
@@ -159,13 +161,13 @@ func TestC15(t *testing.T) {
 	}
 
 	// websocket
-	wsRounds := r.Pick(6, 60)
+	wsRounds := r.Pick(16, 150)
 	for round := 0; round < wsRounds; round++ {
 		for _, tr := range []string{"ws", "wss"} {
 			for _, role := range roles {
 				for _, s := range xsocks {
 					sizes := genSizes(rnd, 5+rnd.Intn(5), rnd.Intn(16) == 0)
-					cases = append(cases, mon.CaseSpec{Name: "ws", Spec: spec{Kind: "ws", Tr: tr, Role: role, Sock: s, Sizes: sizes}})
+					cases = append(cases, mon.CaseSpec{Name: "ws", Spec: spec{Kind: "ws", Tr: tr, Role: role, Sock: s, Sizes: sizes, Full: round == 0}})
 				}
 			}
 		}
@@ -173,6 +175,16 @@ func TestC15(t *testing.T) {
 
 	r.Run(cases, func(c *mon.Case) {
 		sp := c.Spec.(spec)
+		defer func() {
+			// a harness end point that cannot be set up (ports, descriptors) decides nothing
+			if p := recover(); p != nil {
+				e, ok := p.(envError)
+				if !ok {
+					panic(p)
+				}
+				c.Inconclusive("environment: %v", e.err)
+			}
+		}()
 		switch sp.Kind {
 		case "frame":
 			caseFrame(c, sp)
@@ -185,6 +197,8 @@ func TestC15(t *testing.T) {
 	})
 }
 
+type envError struct{ err error }
+
 // ---- pipe watcher ---------------------------------------------------------------
 
 type pipeWatch struct {
@@ -192,6 +206,7 @@ type pipeWatch struct {
 	attached int
 	detached int
 	ids      []uint32
+	remotes  []net.Addr
 }
 
 func watch(s mangos.Socket) *pipeWatch {
@@ -202,6 +217,11 @@ func watch(s mangos.Socket) *pipeWatch {
 		case mangos.PipeEventAttached:
 			w.attached++
 			w.ids = append(w.ids, p.ID())
+			if v, err := p.GetOption(mangos.OptionRemoteAddr); err == nil {
+				if a, ok := v.(net.Addr); ok {
+					w.remotes = append(w.remotes, a)
+				}
+			}
 		case mangos.PipeEventDetached:
 			w.detached++
 		}
@@ -211,6 +231,30 @@ func watch(s mangos.Socket) *pipeWatch {
 }
 
 func (w *pipeWatch) Attached() int { w.mu.Lock(); defer w.mu.Unlock(); return w.attached }
+
+// foreign names an attached pipe whose peer is a socket of another process
+// (a stray connection to a recycled loopback port), or returns "".
+func (w *pipeWatch) foreign() string {
+	w.mu.Lock()
+	rs := append([]net.Addr{}, w.remotes...)
+	w.mu.Unlock()
+	for _, a := range rs {
+		if spcodec.ForeignTCP(a) {
+			return a.String()
+		}
+	}
+	return ""
+}
+
+// attachViolation reports a violation about which pipes attached, unless a
+// stray connection from another process explains the count.
+func attachViolation(c *mon.Case, w *pipeWatch, sig, format string, a ...interface{}) {
+	if f := w.foreign(); f != "" {
+		c.Inconclusive("a connection from another process (%s) attached to the socket under test", f)
+		return
+	}
+	c.Violate(sig, format, a...)
+}
 func (w *pipeWatch) LastID() uint32 {
 	w.mu.Lock()
 	defer w.mu.Unlock()
@@ -322,10 +366,10 @@ func newRig(c *mon.Case, sp spec) *rig {
 		}
 		l, err := g.sock.NewListener(hx.ListenAddr(sp.Tr), lo)
 		if err != nil {
-			panic(err)
+			panic(envError{err})
 		}
 		if err := l.Listen(); err != nil {
-			panic(err)
+			panic(envError{err})
 		}
 		g.url = l.Address()
 	} else {
@@ -335,7 +379,7 @@ func newRig(c *mon.Case, sp spec) *rig {
 		}
 		rl, err := spcodec.Listen(sp.Tr, path, g.srvTLS)
 		if err != nil {
-			panic(err)
+			panic(envError{err})
 		}
 		g.rl = rl
 	}
@@ -373,8 +417,9 @@ func (g *rig) rawConn() (net.Conn, *mon.Call, mangos.Dialer, bool) {
 	}
 	d, err := g.sock.NewDialer(g.rl.URL(), g.dialOpts())
 	if err != nil {
-		panic(err)
+		panic(envError{err})
 	}
+	d.SetOption(mangos.OptionReconnectTime, time.Hour) // one connection per dialer: no re-dial into the raw listener
 	ac := mon.Go("raw-accept", func() (interface{}, error) { return g.rl.Accept() })
 	dial := mon.Go("Dial", func() (interface{}, error) { return nil, d.Dial() })
 	if !g.wait("harness:raw-accept-stuck", "raw listener accepting the library's connection", ac) {
@@ -407,6 +452,10 @@ func (g *rig) readOwnHeader(cn net.Conn) bool {
 	c.Count("own_headers_checked", 1)
 	want := spcodec.Header(g.proto.Num)
 	if err != nil || !bytes.Equal(got, want) {
+		if spcodec.ForeignTCP(cn.RemoteAddr()) {
+			c.Inconclusive("the raw listener accepted a connection from another process (%s)", cn.RemoteAddr())
+			return false
+		}
 		c.Violate("stream/own-header-wrong:"+g.tag, "library sent header % x (err %v), the mapping requires % x", got, err, want)
 		return false
 	}
@@ -438,7 +487,7 @@ func (g *rig) connectGood(cuts []int) (net.Conn, uint32, bool) {
 		return nil, 0, false
 	}
 	if n := g.pw.Attached(); n != base {
-		c.Violate("stream/attached-before-peer-header:"+g.tag, "pipe attached (%d -> %d) although the peer has not sent its header", base, n)
+		attachViolation(c, g.pw, "stream/attached-before-peer-header:"+g.tag, "pipe attached (%d -> %d) although the peer has not sent its header", base, n)
 		return nil, 0, false
 	}
 	hdr := spcodec.Header(g.proto.PeerNum)
@@ -718,12 +767,10 @@ func caseHsDev(c *mon.Case, sp spec) {
 	g := newRig(c, sp)
 	good := spcodec.Header(g.proto.PeerNum)
 	// what a bad peer pushes right after its header: two frames the pattern would deliver
-	probeHdr, _ := func() ([]byte, []byte) {
-		if canRecv(sp.Sock) {
-			return inbound(sp.Sock, c.Rand, 0)
-		}
-		return nil, nil
-	}()
+	var probeHdr []byte
+	if canRecv(sp.Sock) {
+		probeHdr, _ = inbound(sp.Sock, c.Rand, 0)
+	}
 	probe := spcodec.Frame(g.ipc, append(append([]byte{}, probeHdr...), []byte("PROBE-after-bad-header")...))
 	extra := append(append([]byte{}, probe...), probe...)
 
@@ -779,7 +826,7 @@ func caseHsDev(c *mon.Case, sp spec) {
 			return
 		}
 		if g.pw.Attached() > base {
-			c.Violate("stream/bad-header-accepted:"+g.tag+":"+kinds[i], "pipe attached after peer header % x (correct would be % x)", h, good)
+			attachViolation(c, g.pw, "stream/bad-header-accepted:"+g.tag+":"+kinds[i], "pipe attached after peer header % x (correct would be % x)", h, good)
 			return
 		}
 		v, _, _ := rd.Result()
@@ -808,7 +855,7 @@ func caseHsDev(c *mon.Case, sp spec) {
 		return
 	}
 	if n := g.pw.Attached(); n != 1 {
-		c.Violate("stream/bad-header-accepted:"+g.tag+":late", "%d pipes attached in total, only the one correct peer may", n)
+		attachViolation(c, g.pw, "stream/bad-header-accepted:"+g.tag+":late", "%d pipes attached in total, only the one correct peer may", n)
 		return
 	}
 	if canRecv(sp.Sock) {
